@@ -31,7 +31,7 @@ EXHAUSTIVE = {"quick": ["suspension injection point: every tick of each generate
 NSHARDS = {"quick": 16, "thorough": 16}
 N_SCEN = {"quick": 45, "thorough": 4500}
 N_MIX = {"quick": 60, "thorough": 6000}
-REQUIRE = {"scale:script_of_more_than_4096_ticks": 1, "inject:accepted": 300, "inject:refused": 1000, "suspend_one_tick": 50, "suspend_multi_tick": 50,
+REQUIRE = {"rejected:request-for-resources-of-a-container-in-its-last-write-out-tick": 30, "scale:script_of_more_than_4096_ticks": 1, "inject:accepted": 300, "inject:refused": 1000, "suspend_one_tick": 50, "suspend_multi_tick": 50,
            "suspension_finished": 300, "resumed_and_finished": 100, "rejected:suspend-not-running": 20,
            "scenarios_fully_enumerated": 100}
 
@@ -94,9 +94,15 @@ def cases(tier, seed, shard, nshards):
         yield _exec.mix_case(rng, 10 ** 6 + i, steps=5000 if tier == "quick" else 9000, p_bad=0.0, p_suspend=0.7, mem_heavy=False,
                              p_unready=0.0, multi=True, tps=rng.choice([20, 100, 1000]), maxn=4, nops=rng.choice([3, 4, 5]),
                              npipes=1200, drain=2000, pools=1)
+    for i in range(N_MIX[tier] // 3):
+        # requests for what a container in its last write-out tick is about to release (must still be refused)
+        yield _exec.mix_case(rng, 5 * 10 ** 5 + i, steps=60, p_bad=0.5, bad_kinds=["oversell-releasing"], p_suspend=1.0,
+                             mem_heavy=False, p_unready=0.0, multi=True, tps=rng.choice([1, 5, 20, 100]), maxn=3,
+                             nops=rng.choice([2, 3, 4]), npipes=rng.randint(4, 10), pools=rng.choice([1, 2]))
     for i in range(N_MIX[tier]):
         yield _exec.mix_case(rng, i, steps=rng.choice([40, 80]), p_bad=rng.choice([0.02, 0.05]),
-                             bad_kinds=["suspend-mid", "suspend-unknown", "suspend-wrong-pool", "suspend-mid"],
+                             bad_kinds=["suspend-mid", "suspend-unknown", "suspend-wrong-pool", "suspend-mid", "oversell-releasing",
+                                        "oversell-releasing"],
                              p_suspend=rng.choice([0.5, 1.0]), mem_heavy=False, p_unready=0.0, multi=True,
                              tps=rng.choice([1, 2, 5, 10, 20, 100, 1000]), maxn=4, nops=rng.choice([2, 3, 4, 5]),
                              npipes=rng.randint(2, 8))
